@@ -4,6 +4,8 @@ import CogentModel.Model.RichDict
 import CogentModel.Spec.PySlice
 import CogentModel.Model.TreeRich
 import CogentModel.Gen.C10Registry
+import CogentModel.Model.CollRich
+import CogentModel.Gen.C10GetClass
 open CogentModel CogentModel.View CogentModel.RichDict
 
 def errStr10 : Err → String
@@ -74,6 +76,18 @@ def handle (cmd : String) (j : J) : Except String J :=
         J.obj [("type", J.str (String.ofList e.typeStr)), ("cls", J.str e.cls), ("kind", J.str e.kind),
                ("key", match Gen.C10Registry.dispatch Gen.C10Registry.table e.typeStr with
                        | some x => J.str (String.ofList x.key) | none => J.null)]))])
+  | "coll_dict" => do
+    -- `for seq in self.seqs: data[seq.name] = …` then `.values()`: which row (index) sits under which key, in dict order
+    let names ← (← j.get "names").toListOf J.toStr
+    let rows : List (String × Nat) := names.zip (List.range names.length)
+    let d := CollRich.seqsDict (fun r => r.1) (fun r => r.2) rows
+    pure (J.obj [("keys", J.arr (d.map fun (k, _) => J.str k)), ("rows", J.arr (d.map fun (_, i) => J.num (i : Int)))])
+  | "get_class" => do
+    -- translated `_get_class` on provenance strings: (import_module argument, getattr argument) or the failed assert
+    let ts ← (← j.get "types").toListOf J.toStr
+    pure (J.arr (ts.map fun t => match Gen.C10GetClass.get_class t.toList with
+      | .ok (m, c) => J.arr [J.str (String.ofList m), J.str (String.ofList c)]
+      | .error e => J.obj [("err", J.str e)]))
   | "dispatch" => do
     -- the translated dispatch loop over a registry given by the caller (the REAL key order) on type strings
     let keys ← (← j.get "keys").toListOf J.toStr
